@@ -611,3 +611,58 @@ Example c13_nonvacuous :
   step (run w_init w_setup) (AddDelegate 0 (FX 90000 + 1) 0) = Err e_above /\
   step (exec (exec w_init (Fund 9 (FX 300000))) (GovSet [9] [])) (Bond 9 100 200 0 (FX 10000 - 1)) = Err e_below.
 Proof. vm_compute. repeat split; reflexivity. Qed.
+
+(* ------------------------------------------------------------------ *)
+(* "after governance removes an oracle and the unbonding period has passed the oracle can withdraw its
+   stake minus penalties exactly once" — for the tree in which UnbondedOracle refuses WHILE an unbonding
+   entry exists ([unbond_needs_entry = false], the test as it reads since the C13-1 fix) *)
+Theorem unbond_once_if_fixed : Gen_OracleSlash.unbond_needs_entry = false ->
+  forall s a r, recs s a = Some r -> ~ In a (proposal s) -> o_online r = false ->
+  (forall u, In u (ubds s) -> u_orc u <> a) ->                       (* nothing of it left in the unbonding queue *)
+  (0 < slash_amount r (p_fraction (prm s)) -> slash_amount r (p_fraction (prm s)) <= bal_d s a) ->
+  exists s', step s (Unbond a) = Ok s' /\
+    bal_o s' a = bal_o s a + (bal_d s a - slash_amount r (p_fraction (prm s))) /\
+    bal_d s' a = 0 /\ burned s' = burned s + slash_amount r (p_fraction (prm s)) /\
+    recs s' a = None /\ by_bridger s' (o_bridger r) = None /\ by_ext s' (o_ext r) = None /\
+    (forall s'', step s' (Unbond a) <> Ok s'').
+Proof.
+  intros F s a r Hr Hp Off HU HS.
+  destruct (unbond_after_maturity_accepted_if_fixed F s a r Hr Hp Off HU HS) as (s' & U).
+  exists s'. split; [exact U|].
+  destruct (unbond_spec _ _ _ U) as (r0 & Hr0 & _ & _ & _ & B & _ & D & Bu & RN & IB & IE & _ & Tw).
+  assert (r0 = r) by congruence. subst r0. repeat split; auto.
+Qed.
+
+(* and while stake is still in the queue it is refused, so nothing can be forfeited *)
+Theorem unbond_refused_while_pending_if_fixed : Gen_OracleSlash.unbond_needs_entry = false ->
+  forall s a r, recs s a = Some r -> has_ubd a (o_val r) (ubds s) = true -> forall s', unbond s a <> Ok s'.
+Proof.
+  intros F s a r Hr HU s' U. destruct (unbond_spec _ _ _ U) as (r0 & Hr0 & _ & _ & HU0 & _).
+  assert (r0 = r) by congruence. subst r0. rewrite F in HU0. congruence.
+Qed.
+
+(* the full life cycle, computed on the model of the fixed tree (history A: bonded 10000 FX, removed by
+   governance with 7 units of reward paid out, unbonding period passes): the withdrawal pays 10000 FX + 7,
+   deletes the records, a second one is refused.  History E: the same for an oracle that did not sign
+   oracle set 1, was penalised (80 %) and then removed: it gets 2000 FX, 8000 FX are burned. *)
+Definition w_E : list op :=
+  w_D ++ confirm_all 2 3 ++ [GovSet [0; 1; 2; 4; 5; 6] [(3, 5)]; EndBlock 1814600 1814605 true].
+
+Theorem unbond_life_cycle_if_fixed : Gen_OracleSlash.unbond_needs_entry = false ->
+  (let s := run w_init w_A in
+   let s' := exec s (Unbond 0) in
+   is_ok (step s (Unbond 0)) = true /\ bal_o s' 0 - bal_o s 0 = FX 10000 + 7 /\ bal_d s' 0 = 0 /\
+   recs s' 0 = None /\ by_bridger s' 100 = None /\ by_ext s' 200 = None /\ burned s' = 0 /\
+   step s' (Unbond 0) = Err e_notfound) /\
+  (let s := run w_init w_E in
+   let s' := exec s (Unbond 3) in
+   recs s 3 = Some (mkOracle 3 103 203 (FX 10000) 2 false 0 1) /\
+   is_ok (step s (Unbond 3)) = true /\ bal_o s' 3 - bal_o s 3 = FX 2000 + 5 /\ burned s' = FX 8000 /\
+   recs s' 3 = None /\ step s' (Unbond 3) = Err e_notfound) /\
+  (* before maturity it is refused and nothing changes *)
+  step (run w_init w_B) (Unbond 0) = Err e_staking.
+Proof.
+  intro F; first
+  [ discriminate F
+  | cbv zeta; split; [|split]; vm_compute; repeat split; reflexivity ].
+Qed.
